@@ -23,7 +23,7 @@ RULE = ('random netlists (1-4 inputs, 1-7 cells of NANGATE/SAED32/SAED90 with 1-
         'interconnects that are not all-zero although max(max(delvals)) == 0 included); the overlap stream (several '
         'outputs per input pin, duplicates) is model-vs-code only. distinct = (netlist, branchforks, SDF text); non-trivial = at '
         'least 3 entries and at least one non-zero ground-truth coordinate. '
-        'clause sdf-wave (timing data path, Props/C14Wave.lean): '
+        'clause sdf-wave (timing data path, Props/C14Wave.lean; hypotheses wfB/orderOKB/forksOKB/readsDrivenB/rawNonneg of its STA theorems evaluated by the driver on every compared case, tags hyp:sdfwave:*): '
         'netlists of cells WaveSim schedules (1-4 inputs, one output) x SDF texts with non-negative values on the 1/8 grid x '
         '{strip_forks} x c_caps 16/32 x three lanes with the three data sets x random multi-transition stimuli: real '
         'WaveSim(c, delays=df.iopaths(c, tlib) + df.interconnects(c, tlib)) against the composition of the models (driver sdfwave: '
